@@ -1059,8 +1059,9 @@ class PiecewiseLinearCoalescentGrid(Distribution):
         diff_log_thetas = log_pop_sizes[..., 2:] - log_pop_sizes[..., 1:-1]
 
         # flat segments (equal population sizes at both ends) integrate to
-        # duration / population size of that segment
-        integral = intervals / pop_sizes[..., 2:]
+        # duration / population size of that segment; written symmetrically so that
+        # the gradient is the limit of the gradient of the general formula
+        integral = 2.0 * intervals / (pop_sizes[..., 1:-1] + pop_sizes[..., 2:])
         idx = (diff_thetas != 0.0).nonzero(as_tuple=True)
         integral[idx] = intervals[idx] * diff_log_thetas[idx] / diff_thetas[idx]
 
